@@ -324,7 +324,7 @@ func runC03(c *wk.Ctx) {
 	c.Floor("verdict:must-accept", 1000)
 	c.Floor("verdict:must-reject", 1000)
 	c.Floor("native_form_checks", 1000)
-	nSampled := c.N(6000, 200000)
+	nSampled := c.N(6000, 2000000)
 	total := nEnum + int64(len(ooCases)) + nSampled
 	builtOO := map[*gen.Shape]schema.Type{}
 	c.Cases(total, func(idx int64, r *wk.Rand) {
